@@ -1,8 +1,8 @@
 """C11 — the Arrow type tables and constants, extracted from the working tree.
 
 * ``FlatColumn.arrow_field`` (orso/schema.py): the ``type_map`` dictionary literal
-  (OrsoTypes member -> pyarrow constructor call, including how the two arguments of
-  ``pyarrow.decimal128`` are defaulted), the fallback of ``type_map.get(self.type, …)``,
+  (OrsoTypes member -> pyarrow constructor call; the two argument expressions of
+  ``pyarrow.decimal128`` are lifted separately by ``c11_expr.py``), the fallback of ``type_map.get(self.type, …)``,
   the ARRAY branch (``pyarrow.list_(type_map.get(self.element_type, …))``);
 * ``DECIMAL_PRECISION`` (schema.py, ``getcontext().prec`` — a runtime parameter);
 * ``arrow_type_map`` (orso/tools.py): the ``type_map`` literal (``lib.Type_*`` -> Python class),
@@ -15,7 +15,7 @@
 * environment parameters read from the installed pyarrow: the numeric ``lib.Type_*`` ids, the
   type id each pyarrow constructor used by ``arrow_field`` produces, the decimal128 precision range.
 
-The generated file defines two small fixed syntax types (`Defaulting`, `Spec`) so that
+The generated file defines one small fixed syntax type (`Spec`) so that
 `Model/Arrow.lean` always compiles against it, whatever the tables contain.
 """
 import ast
@@ -47,7 +47,7 @@ PINNED_FIELD_MAP = [
     ["BOOLEAN", ["prim", "BOOL"]], ["BLOB", ["prim", "BINARY"]], ["DATE", ["prim", "DATE64"]],
     ["TIMESTAMP", ["prim", "TIMESTAMP"]], ["TIME", ["prim", "TIME32"]],
     ["INTERVAL", ["prim", "INTERVAL_MONTH_DAY_NANO"]], ["STRUCT", ["prim", "BINARY"]],
-    ["DECIMAL", ["decimal", "DECIMAL128", ["orElse", 28], ["ifNone", 10]]], ["DOUBLE", ["prim", "DOUBLE"]],
+    ["DECIMAL", ["decimal", "DECIMAL128"]], ["DOUBLE", ["prim", "DOUBLE"]],
     ["INTEGER", ["prim", "INT64"]], ["ARRAY", ["list", "LIST", ["prim", "STRING"]]], ["VARCHAR", ["prim", "STRING"]],
     ["JSONB", ["prim", "BINARY"]], ["NULL", ["prim", "NA"]],
 ]
@@ -149,36 +149,6 @@ def generate(o):
     dprec = o.item("arrow.DECIMAL_PRECISION", decimal_precision, 28)
 
     # ---- schema.py: arrow_field
-    def defaulting(node):
-        """How one argument of pyarrow.decimal128 is computed from self.precision / self.scale."""
-
-        def const(n):
-            if isinstance(n, ast.Constant) and isinstance(n.value, int) and not isinstance(n.value, bool):
-                return n.value
-            if isinstance(n, ast.Name) and n.id == "DECIMAL_PRECISION":
-                return dprec
-            raise KeyError("default " + ast.unparse(n))
-
-        def attr(n):
-            if isinstance(n, ast.Attribute) and isinstance(n.value, ast.Name) and n.value.id == "self":
-                return n.attr
-            raise KeyError("not self.<attr>: " + ast.unparse(n))
-
-        if isinstance(node, ast.BoolOp) and isinstance(node.op, ast.Or) and len(node.values) == 2:
-            return attr(node.values[0]), ["orElse", const(node.values[1])]
-        if isinstance(node, ast.IfExp) and isinstance(node.test, ast.Compare) and len(node.test.ops) == 1 \
-                and isinstance(node.test.comparators[0], ast.Constant) and node.test.comparators[0].value is None:
-            a = attr(node.test.left)
-            if isinstance(node.test.ops[0], ast.Is):  # D if self.x is None else self.x
-                if attr(node.orelse) != a:
-                    raise KeyError(ast.unparse(node))
-                return a, ["ifNone", const(node.body)]
-            if isinstance(node.test.ops[0], ast.IsNot):  # self.x if self.x is not None else D
-                if attr(node.body) != a:
-                    raise KeyError(ast.unparse(node))
-                return a, ["ifNone", const(node.orelse)]
-        return attr(node), ["plain"]
-
     def spec(node):
         """pyarrow.<ctor>(args) -> spec tree."""
         if not (isinstance(node, ast.Call) and isinstance(node.func, ast.Attribute)
@@ -188,10 +158,8 @@ def generate(o):
         if ctor in ("decimal128", "decimal256"):
             if len(node.args) != 2 or node.keywords:
                 raise KeyError(ast.unparse(node))
-            (ap, dp), (as_, ds) = defaulting(node.args[0]), defaulting(node.args[1])
-            if ap != "precision" or as_ != "scale":
-                raise KeyError("decimal arguments are not (precision, scale): " + ast.unparse(node))
-            return ["decimal", CTOR_IDS[ctor], dp, ds]
+            # the two argument expressions are lifted by extractors/c11_expr.py (Gen.ArrowExpr)
+            return ["decimal", CTOR_IDS[ctor]]
         if ctor in ("list_", "large_list"):
             if len(node.args) != 1 or node.keywords:
                 raise KeyError(ast.unparse(node))
@@ -421,16 +389,11 @@ def generate(o):
     bsize = o.item("arrow.BATCH_SIZE", batch_size, 10000)
 
     # ---- emit
-    def lean_def(d):
-        if d[0] == "plain":
-            return ".plain"
-        return "(.%s %d)" % (d[0], d[1])
-
     def lean_spec(s):
         if s[0] == "prim":
             return "(.prim %s)" % lean_str(s[1])
         if s[0] == "decimal":
-            return "(.decimal %s %s %s)" % (lean_str(s[1]), lean_def(s[2]), lean_def(s[3]))
+            return "(.decimal %s)" % lean_str(s[1])
         if s[0] == "list":
             return "(.list %s %s)" % (lean_str(s[1]), lean_spec(s[2]))
         return ".unknown"
@@ -442,11 +405,8 @@ def generate(o):
         return "true" if b else "false"
 
     text = HEADER + "namespace Gen.Arrow\n"
-    text += "/-- how an argument of `pyarrow.decimal128` is computed from `self.precision` / `self.scale`:\n"
-    text += "`x or d`, `d if x is None else x`, or plain `x` -/\n"
-    text += "inductive Defaulting where\n  | orElse (d : Nat)\n  | ifNone (d : Nat)\n  | plain\n  deriving DecidableEq, Repr\n"
     text += "/-- a pyarrow constructor call of `arrow_field`, by the `lib.Type_*` id it produces -/\n"
-    text += "inductive Spec where\n  | prim (typeId : String)\n  | decimal (typeId : String) (p s : Defaulting)\n"
+    text += "inductive Spec where\n  | prim (typeId : String)\n  | decimal (typeId : String)\n"
     text += "  | list (typeId : String) (elem : Spec)\n  | unknown\n  deriving DecidableEq, Repr\n"
     text += "/-- orso/converters.py from_arrow: BATCH_SIZE -/\ndef batchSize : Nat := %d\n" % bsize
     text += "/-- orso/types.py: members of OrsoTypes, in source order -/\n"
